@@ -26,7 +26,10 @@ META = dict(
               "numeric field symbolic (token of the printed width; one field per record may fill its column), symbolic "
               "bond partners / CONECT serials in their legal range; sizes 1-3 atoms plus boundary sizes; optional "
               "sections absent/present (gro velocities, triclinic box, time; pdb CONECT; cube ragged last lines)",
-        thorough="more sizes; width budget 2"),
+        thorough="two fields per record may fill their columns; more sizes and frames (sdf 100/999 atoms with 3 bonds, gro 3 frames, "
+                 "xyz 5 frames, cube 2x3x4 / 3x1x5 / 1x1x13, wfn with 3 primitives per shell, wfx unrestricted for every type order, "
+                 "fchk d shells with all property sections, molden/molekel for every unit spelling x d kind x spin x flag position "
+                 "with 7 orbitals, gaussian log nbasis 2/10/12, fcidump n=3)"),
     outside=["gamess, orcalog, qchemlog, cp2klog, json_qcschema: no independent layout writer in this check (free-form "
              "program output; their unit handling is checked on the tokenised corpus in C04)", "float32 storage precision of gro/charmm positions", "Fortran D exponents"],
     assumptions=["the layout tables are transcriptions of the public format descriptions cited in specs/layouts.py",
@@ -81,7 +84,7 @@ def h_sdf(ctx, natom=3, nbond=2, policy="touch"):
     import iodata.api as api
     mods = rt._fmt_modules("sdf")
     ctx.scratch["width_policy"] = policy
-    ctx.scratch["full_budget"] = 1
+    ctx.scratch["full_budget"] = 2 if ctx.tier == "thorough" else 1
     with stubbed(*mods):
         zs = [8, 1, 17, 6, 35][:1] * natom
         atoms = []
@@ -129,7 +132,7 @@ def h_pdb(ctx, natom=3, big=False, policy="touch"):
     import iodata.api as api
     mods = rt._fmt_modules("pdb")
     ctx.scratch["width_policy"] = policy
-    ctx.scratch["full_budget"] = 1
+    ctx.scratch["full_budget"] = 2 if ctx.tier == "thorough" else 1
     with stubbed(*mods):
         atoms = []
         base = 9998 if big else 1
@@ -177,7 +180,7 @@ def h_gro(ctx, natom=2, nframes=1, vel=True, triclinic=True, time=True, policy="
     import iodata.api as api
     mods = rt._fmt_modules("gromacs")
     ctx.scratch["width_policy"] = policy
-    ctx.scratch["full_budget"] = 1
+    ctx.scratch["full_budget"] = 2 if ctx.tier == "thorough" else 1
     with stubbed(*mods):
         frames = []
         for f in range(nframes):
@@ -1032,4 +1035,31 @@ def jobs(tier):
                        dict(natom=natom, nlink0=nl, nroute=nr, ntitle=nt), max_validate=3))
     for n in (1, 2):
         out.append(job("C03", f"fcidump[n={n}]", M, "h_fcidump", dict(n=n), max_validate=3))
+    if tier == "thorough":
+        B = dict(budget_s=3000, max_validate=3)
+        for natom, nbond in ((2, 1), (100, 3), (999, 3)):
+            out.append(job("C03", f"sdf[n={natom},b={nbond}]+", M, "h_sdf", dict(natom=natom, nbond=nbond), **B))
+        out.append(job("C03", "pdb[n=3,big=1]+", M, "h_pdb", dict(natom=3, big=True), **B))
+        out.append(job("C03", "gro[3 frames]+", M, "h_gro", dict(natom=3, nframes=3, vel=True, triclinic=True, time=True), **B))
+        out.append(job("C03", "xyz[5 frames]+", M, "h_xyz", dict(nframes=5, ext=False), **B))
+        out.append(job("C03", "extxyz[4 frames]+", M, "h_xyz", dict(nframes=4, ext=True), **B))
+        for shape in ((2, 3, 4), (3, 1, 5), (1, 1, 13)):
+            out.append(job("C03", f"cube[{shape}]+", M, "h_cube", dict(shape=shape), **B))
+        for order in WFN_ORDERS:
+            out.append(job("C03", f"wfn[{order},nprim=3]+", M, "h_wfn", dict(order=order, nprim=3), **B))
+            out.append(job("C03", f"wfx[{order},unrestricted]+", M, "h_wfx", dict(order=order, nprim=2, spin="unrestricted", extras=True), **B))
+        for basis in ("dcart", "dpure"):
+            for spin in ("restricted", "unrestricted"):
+                out.append(job("C03", f"fchk[{basis},{spin},props]+", M, "h_fchk", dict(basis=basis, spin=spin, props=True), **B))
+        for fmt in ("molden", "molekel"):
+            for dkind in ("c", "p"):
+                for spin in ("restricted", "unrestricted"):
+                    for unit in (("AU", "Angs", "(AU)", "(Angs)") if fmt == "molden" else ("AU",)):
+                        for pf in (False, True):
+                            out.append(job("C03", f"{fmt}-layout[d={dkind},{unit},{spin},pure_first={int(pf)},norb=7]+", M, "h_molden_layout",
+                                           dict(fmt=fmt, dkind=dkind, unit=unit, spin=spin, pure_first=pf, norb=7), **B))
+        for nbasis in (2, 10, 12):
+            out.append(job("C03", f"gaussianlog[nbasis={nbasis}]+", M, "h_gaussian_log", dict(nbasis=nbasis, eri=nbasis <= 6), **B))
+        for n in (3,):
+            out.append(job("C03", f"fcidump[n={n}]+", M, "h_fcidump", dict(n=n), **B))
     return out
